@@ -8,7 +8,6 @@ From LI Require Import Base.StrOps Parser.Parse Parser.Json Parser.Reduce Parser
   Parser.RoundTripRef1 Parser.Foreign.
 Open Scope N_scope.
 
-Definition c_quote : char := 34.
 Fixpoint join_with (sep : str) (l : list str) : str :=
   match l with
   | [] => []
@@ -52,9 +51,6 @@ Definition argch (c : char) : bool :=
 
 Section XWf.
 Variable idc : str -> idres.
-Fixpoint nodup_strs (l : list str) : bool :=
-  match l with [] => true | x :: r => negb (existsb (str_eqb x) r) && nodup_strs r end.
-
 Fixpoint xwf (inarg : bool) (i : xitem) : bool :=
   match i with
   | XText s => forallb (if inarg then argch else textch) s
